@@ -63,6 +63,10 @@ def parse_out(text, engine=ENGINE):
     return diffs, hits, summary, samples, errors
 
 
+def engine_name():
+    return ENGINE
+
+
 def _key(ctx, tier, seed, budget):
     here = ctx["here"]
     th = os.path.join(here, "coq", "theories")
@@ -113,6 +117,21 @@ def run(ctx):
             res["error"] = "model-side checker failed: " + (errors[0][:400] if errors else text[-400:])
             shutil.rmtree(work, ignore_errors=True)
             return res
+        # the poll adapter alone (RealDriver::register_poll + poll on prepared descriptors)
+        probes = []
+        try:
+            for line in open(os.path.join(work, "poll_probes.txt"), encoding="utf-8"):
+                m = re.match(r"POLLPROBE (\S+) expected=(\S+) observed=(.*)$", line.strip())
+                if m:
+                    probes.append(m.groups())
+                    if m.group(2) != m.group(3):
+                        hits.insert(0, {"engine": engine_name(), "clause": "C10.real_hangup" if "gone" in m.group(1) else "C10.real_poll",
+                                        "known_class": None,
+                                        "input": {"situation": m.group(1), "kind": "poll-probe"},
+                                        "observed": m.group(3), "expected": m.group(2),
+                                        "note": "RealDriver::poll on prepared pipes; a wake-up that is not reported is lost for ever under edge-triggered readiness"})
+        except OSError:
+            pass
         res.update({"ok": True, "diffs": diffs[:40], "hits": hits[:40]})
         res["stats"] = {
             "programs": summary.get("cases", 0),
@@ -133,6 +152,7 @@ def run(ctx):
             "real_epoll_tablet_on_runs": summary.get("tablet_cases", 0),
             "real_epoll_no_progress_deadlines": summary.get("deadlines", 0),
             "disagreements_checked": len(diffs),
+            "real_poll_adapter_probes": len(probes),
             "realloop_generator": gen_line,
             "input_distribution": {"realloop_runs": summary.get("cases", 0), "realloop_key_events": summary.get("key_events", 0),
                                    "realloop_input_records": summary.get("in_records", 0), "realloop_write_calls": summary.get("writes", 0),
@@ -164,6 +184,18 @@ def replay(ctx, rp):
     """run the real loop with the real driver again on the replay file's layout, record script (same batching) and tablet
     flag; print what the checker says"""
     inp = rp.get("input") or (rp.get("first_difference") or {}).get("input") or {}
+    if inp.get("kind") == "poll-probe":
+        work = os.path.join(ctx["build"], "work", "realloop-replay")
+        os.makedirs(work, exist_ok=True)
+        ctx["sh"]("%s realloop --out %s --seed 1 --tier quick --scale 0" % (ctx["harness"], work), timeout=300)
+        print("RealDriver::register_poll + poll on prepared pipes (expected / observed on the current tree):")
+        try:
+            for line in open(os.path.join(work, "poll_probes.txt")):
+                print(("* " if (" " + inp.get("situation", "") + " ") in line else "  ") + line.strip())
+        except OSError:
+            print("the probes could not be run here")
+        print("recorded: situation=%s clause=%s observed=%s expected=%s" % (inp.get("situation"), rp.get("clause"), rp.get("observed"), rp.get("expected")))
+        return 0
     if inp.get("layout") is None or not inp.get("script"):
         print("replay names no concrete input (kind=%s): %s" % (rp.get("kind"), rp.get("broken")))
         return 0
